@@ -647,7 +647,8 @@ theorem insert_cols_refines (s s' : Sheet) (hw : WF s.rows) (col : List Char) (n
     (h : insertCols s col n = (.ok, s')) :
     WF s'.rows ∧
     (∀ c r, gridAt s'.rows c r = Spec.insAt num n (0, blankTok) (fun i => gridAt s.rows i r) c) ∧
-    (∀ r, attrAt s'.rows r = attrAt s.rows r) := by
+    (∀ r, attrAt s'.rows r = attrAt s.rows r) ∧
+    s'.cols = adjustCols s.cols num n := by
   unfold insertCols insertColsG at h
   simp only [hnum] at h
   by_cases g1 : n < 1 ∨ n > maxCols
@@ -700,6 +701,8 @@ theorem insert_cols_refines (s s' : Sheet) (hw : WF s.rows) (col : List Char) (n
   rw [h] at hk
   have hrows : s'.rows = outs := hk.2.2.1 (by omega)
   rw [hrows]
+  suffices hv : WF outs ∧ (∀ c r, gridAt outs c r = Spec.insAt num n (0, blankTok) (fun i => gridAt s.rows i r) c) ∧
+      ∀ r, attrAt outs r = attrAt s.rows r from ⟨hv.1, hv.2.1, hv.2.2, hk.2.1⟩
   apply cols_view s.rows outs (Spec.insAt num n (0, blankTok))
     (fun c => by unfold Spec.insAt; split <;> (try split) <;> rfl) hw
   intro k
@@ -723,7 +726,8 @@ theorem remove_col_refines (s s' : Sheet) (hw : WF s.rows) (col : List Char) (nu
     WF s'.rows ∧
     (∀ c r, gridAt s'.rows c r = Spec.delAt num (fun i => gridAt s.rows i r) c) ∧
     (∀ r, (attrAt s'.rows r).2 = (attrAt s.rows r).2) ∧
-    (s.filter = none → ∀ r, attrAt s'.rows r = attrAt s.rows r) := by
+    (s.filter = none → ∀ r, attrAt s'.rows r = attrAt s.rows r) ∧
+    s'.cols = adjustCols s.cols num (-1) := by
   unfold removeCol removeColG at h
   simp only [hnum] at h
   let e : Row → Row := fun r => { r with cells := eraseFirst (fun x : Cell => x.c == num) r.cells }
@@ -780,7 +784,7 @@ theorem remove_col_refines (s s' : Sheet) (hw : WF s.rows) (col : List Char) (nu
       subst eo
       exact ⟨_, hs, by simpa using hc, cells_del_view r.cells num h1 _ hform⟩)
   have hview2 : ∀ r, (viewAt s'.rows r).2 = (viewAt outs r).2 := fun r => (view_of_core outs s'.rows hcore.symm r).symm
-  refine ⟨WF_of_core outs s'.rows hcore.symm hv.1, ?_, ?_, ?_⟩
+  refine ⟨WF_of_core outs s'.rows hcore.symm hv.1, ?_, ?_, ?_, hk.2.1⟩
   · intro c r
     have := hv.2.1 c r
     unfold gridAt at this ⊢
@@ -793,5 +797,95 @@ theorem remove_col_refines (s s' : Sheet) (hw : WF s.rows) (col : List Char) (nu
   · intro hnone r
     have : s'.rows = outs := (hk.2.2.2 (by simpa [s0] using hnone)).1
     rw [this]; exact hv.2.2 r
+
+/-! ## Column definitions (`ws.Cols`) -/
+
+/-- the attribute token that applies to column `c`: the first `<col>` element whose range covers it -/
+def colTokAt : List Col → Int → String
+  | [], _ => "-"
+  | x :: t, c => if x.min ≤ c ∧ c ≤ x.max then x.tok else colTokAt t c
+
+/-- `adjustCols` on insertion: left of the edit point every column keeps its definition, from `col + n` on
+every column has the definition of the column `n` to its left (the strip in between follows the code's
+"inherit from the left neighbour" rule and is not constrained by the property) -/
+theorem cols_insert_refines (cols : List Col) (col n : Int) (hn : 0 < n) (c : Int) (hc : c ≤ maxCols) :
+    (c < col → colTokAt (adjustCols cols col n) c = colTokAt cols c) ∧
+    (col + n ≤ c → colTokAt (adjustCols cols col n) c = colTokAt cols (c - n)) := by
+  unfold adjustCols
+  simp only [hn, if_true]
+  induction cols with
+  | nil => exact ⟨fun _ => rfl, fun _ => rfl⟩
+  | cons x t ih =>
+    by_cases hdel : x.min ≥ col ∧ (if x.min ≥ col then x.min + n else x.min) > maxCols
+    · have hmin : x.min ≥ col ∧ x.min + n > maxCols := by
+        obtain ⟨a, b⟩ := hdel; simp only [a, if_true] at b; exact ⟨a, b⟩
+      simp only [adjustColsIns, hmin.1, hmin.2, and_self, if_true]
+      constructor
+      · intro h1
+        have : ¬ (x.min ≤ c ∧ c ≤ x.max) := by omega
+        simp only [colTokAt, this, if_false]; exact ih.1 h1
+      · intro h2
+        have : ¬ (x.min ≤ c - n ∧ c - n ≤ x.max) := by omega
+        simp only [colTokAt, this, if_false]; exact ih.2 h2
+    · simp only [adjustColsIns, hdel, if_false]
+      have hk : ¬ (x.min ≥ col ∧ x.min + n > maxCols) := by
+        intro ⟨a, b⟩; exact hdel ⟨a, by simp only [a, if_true]; exact b⟩
+      constructor
+      · intro h1
+        have e : ((if x.min ≥ col then x.min + n else x.min) ≤ c ∧
+            c ≤ (if x.max ≥ col ∨ x.max + 1 = col then (if x.max + n > maxCols then maxCols else x.max + n) else x.max)) ↔
+            (x.min ≤ c ∧ c ≤ x.max) := by
+          split <;> split <;> (try split) <;> constructor <;> intro h <;> omega
+        simp only [colTokAt, e]
+        split
+        · rfl
+        · exact ih.1 h1
+      · intro h2
+        have e : ((if x.min ≥ col then x.min + n else x.min) ≤ c ∧
+            c ≤ (if x.max ≥ col ∨ x.max + 1 = col then (if x.max + n > maxCols then maxCols else x.max + n) else x.max)) ↔
+            (x.min ≤ c - n ∧ c - n ≤ x.max) := by
+          split <;> split <;> (try split) <;> constructor <;> intro h <;> omega
+        simp only [colTokAt, e]
+        split
+        · rfl
+        · exact ih.2 h2
+
+/-- `adjustCols` on removal of column `col`: the definitions are those of the remaining columns -/
+theorem cols_remove_refines (cols : List Col) (col : Int) (c : Int) :
+    colTokAt (adjustCols cols col (-1)) c = Spec.delAt col (colTokAt cols) c := by
+  unfold adjustCols
+  have h0 : ¬ ((-1 : Int) > 0) := by omega
+  simp only [h0, if_false]
+  induction cols with
+  | nil => unfold Spec.delAt; split <;> rfl
+  | cons x t ih =>
+    unfold Spec.delAt at ih ⊢
+    by_cases hdel : x.min = col ∧ x.max = col
+    · simp only [adjustColsDel, hdel, and_self, if_true]
+      by_cases c1 : c < col
+      · simp only [c1, if_true] at ih ⊢
+        have : ¬ (x.min ≤ c ∧ c ≤ x.max) := by omega
+        simp only [colTokAt, this, if_false]; exact ih
+      · simp only [c1, if_false] at ih ⊢
+        have : ¬ (x.min ≤ c + 1 ∧ c + 1 ≤ x.max) := by omega
+        simp only [colTokAt, this, if_false]; exact ih
+    · simp only [adjustColsDel, hdel, if_false]
+      by_cases c1 : c < col
+      · simp only [c1, if_true] at ih ⊢
+        have e : ((if x.min > col then x.min + -1 else x.min) ≤ c ∧
+            c ≤ (if x.max ≥ col then x.max + -1 else x.max)) ↔ (x.min ≤ c ∧ c ≤ x.max) := by
+          split <;> split <;> constructor <;> intro h <;> omega
+        simp only [colTokAt, e]
+        split
+        · rfl
+        · exact ih
+      · simp only [c1, if_false] at ih ⊢
+        have e : ((if x.min > col then x.min + -1 else x.min) ≤ c ∧
+            c ≤ (if x.max ≥ col then x.max + -1 else x.max)) ↔ (x.min ≤ c + 1 ∧ c + 1 ≤ x.max) := by
+          split <;> split <;> constructor <;> intro h <;> omega
+        simp only [colTokAt, e]
+        split
+        · rfl
+        · exact ih
 
 end XlModel.Props.C06
